@@ -191,7 +191,6 @@ int32 matrixSslDecodeTls13(ssl_t *ssl,
     psSize_t maxEarlyData = 0;
     int32_t padLen = 0;
     uint32_t ptLen;
-    psSize_t parsedBytes = 0;
     psBuf_t tmp;
     psBool_t useOutbufForResponse = PS_FALSE;
     psBool_t recordWasProtected;
@@ -212,7 +211,6 @@ int32 matrixSslDecodeTls13(ssl_t *ssl,
     decryptTo = *in;
 
     /* Parse and validate record header. */
-parse_next_record_header:
     rc = tls13ParseRecordHeader(ssl,
             &pb,
             requiredLen);
@@ -225,11 +223,7 @@ parse_next_record_header:
 
     if (!psParseCanRead(&pb, ssl->rec.len))
     {
-        /* It is possible that we get ChangeCipherSpec and incomplete part
-           of some other record (e.g. Certificate) in the same buffer.
-           In order for the requiredLen calculation to go correctly, the length
-           of ChangeCipherSpec must be taken into account (= parsedBytes) */
-        *requiredLen = parsedBytes + ssl->rec.len + ssl->recordHeadLen;
+        *requiredLen = ssl->rec.len + ssl->recordHeadLen;
         return SSL_PARTIAL;
     }
 
@@ -262,25 +256,24 @@ parse_next_record_header:
         rc = tls13ParseChangeCipherSpec(ssl, &pb, requiredLen);
         HANDLE_PARSE_RC(rc, SSL_ALERT_ILLEGAL_PARAMETER);
         psTraceInfo("Ignoring change_cipher_spec...\n");
-        parsedBytes += pb.buf.start - *in;
-        if (pb.buf.start != pb.buf.end)
-        {
-            /* There is more data to be parsed */
-            goto parse_next_record_header; /* Ignore, as per spec. */
-        }
-        /* Done - tell the caller what we've consumed. */
-        *in += parsedBytes;
-        *len -= parsedBytes;
-        *remaining -= PS_MIN(parsedBytes, *remaining);
+        /* Ignore, as per spec. One record per call, as for every other
+           record type: the caller packs the input that follows to the
+           front of its buffer and decodes again. Going on to the next
+           record from here left that record at an offset that neither
+           matrixSslProcessedData (which looks for the rest of the input
+           right behind the record at the front of inbuf) nor the callers'
+           length arithmetic knew about. */
+        *in = pb.buf.start;
+        *remaining = pb.buf.end - pb.buf.start;
         /* If there's handshake message waiting in outbuf then send it */
-        if (ssl->outlen > 0)
+        if (*remaining == 0 && ssl->outlen > 0)
         {
+            /* Nothing was encoded into the input buffer by this call: the
+               caller appends *len bytes of it to what waits in outbuf. */
+            *len = 0;
             return SSL_SEND_RESPONSE;
         }
-        else
-        {
-            return MATRIXSSL_SUCCESS;
-        }
+        return MATRIXSSL_SUCCESS;
     }
     else if (ssl->rec.type == SSL_RECORD_TYPE_ALERT)
     {
@@ -513,7 +506,7 @@ parse_next_record_header:
             ssl->tls13EarlyDataStatus = MATRIXSSL_EARLY_DATA_ACCEPTED;
         }
         *remaining = *len - (pb.buf.start - *in);
-        Memmove(*in, *in + TLS_REC_HDR_LEN + parsedBytes, ptLen);
+        Memmove(*in, *in + TLS_REC_HDR_LEN, ptLen);
         *in = pb.buf.start;
         *len = ptLen;
         return SSL_PROCESS_DATA;
